@@ -116,10 +116,8 @@ mod verif_c19 {
         }
         kani::cover!(d == -3 && a[1] == 7, "non-trivial operands explored");
     }
-    #[kani::proof]
-    fn k_c19_mulvec_grid_f64() {
+    fn mulvec_f64(in_r: usize) {
         let mut a = FA;
-        let in_r: usize = kani::any(); kani::assume(in_r < 3);
         a[in_r] = [gi(), gi(), gi()];
         let v = [gi(), gi(), gi()];
         let ma = m64(&a);
@@ -140,13 +138,28 @@ mod verif_c19 {
             && cr[2] == ((x[0] * v[1] - x[1] * v[0]) as f64) * 0.0625, "f64: cross");
         assert!(ra.dot(&rb) == ((x[0] * v[0] + x[1] * v[1] + x[2] * v[2]) as f64) * 0.0625, "f64: dot");
     }
+    #[kani::proof]
+    fn k_c19_dot_transpose_f64() {
+        let a = [gi(), gi(), gi()]; let b = [gi(), gi(), gi()];
+        let ra = RowVector::new(gd(a[0]), gd(a[1]), gd(a[2]));
+        let rb = RowVector::new(gd(b[0]), gd(b[1]), gd(b[2]));
+        assert!(ra.dot(&rb) == ((a[0] * b[0] + a[1] * b[1] + a[2] * b[2]) as f64) * 0.0625, "f64: dot equals the exact scalar product");
+        let mut m = FA; m[1] = a;
+        let t = m64(&m).transpose().values();
+        let idm = m64(&m).mul_mat(Matrix::<f64>::identity()).values();
+        for i in 0..3 { for j in 0..3 { assert!(t[i][j] == gd(m[j][i]) && idm[i][j] == gd(m[i][j]), "f64: transpose swaps indices, identity() is neutral"); } }
+    }
+    #[kani::proof] #[kani::unwind(4)] fn k_c19_mulvec_row0_f64() { mulvec_f64(0) }
+    #[kani::proof] #[kani::unwind(4)] fn k_c19_mulvec_row1_f64() { mulvec_f64(1) }
+    #[kani::proof] #[kani::unwind(4)] fn k_c19_mulvec_row2_f64() { mulvec_f64(2) }
 
     // invert: entries k/8; one row symbolic (|k| <= 16), the other two rows generic constants; determinant exact in integers
     fn hi() -> i32 { let k: i8 = kani::any(); kani::assume(k >= -16 && k <= 16); k as i32 }
     const FI: [[i32; 3]; 3] = [[9, -4, 3], [2, 11, -7], [-5, 6, 13]];
-    fn invert_row<const R: usize>() {
+    fn invert_entries<const R: usize, const N: usize>() {
+        // N symbolic entries of row R (the others generic constants)
         let mut a = FI;
-        a[R] = [hi(), hi(), hi()];
+        for j in 0..N { a[R][(R + j) % 3] = hi(); }
         let det = a[0][0] * (a[1][1] * a[2][2] - a[1][2] * a[2][1]) - a[0][1] * (a[1][0] * a[2][2] - a[1][2] * a[2][0]) + a[0][2] * (a[1][0] * a[2][1] - a[1][1] * a[2][0]);
         kani::assume(det >= 256 || det <= -256);          // |det| >= 0.5 (det is in 1/512 units)
         let f = |k: i32| (k as f32) * 0.125;
@@ -165,9 +178,12 @@ mod verif_c19 {
         kani::cover!(det > 1000, "large determinant explored");
         kani::cover!(det < -300, "negative determinant explored");
     }
-    #[kani::proof] fn k_c19_invert_row0_f32() { invert_row::<0>() }
-    #[kani::proof] fn k_c19_invert_row1_f32() { invert_row::<1>() }
-    #[kani::proof] fn k_c19_invert_row2_f32() { invert_row::<2>() }
+    #[kani::proof] #[kani::unwind(4)] fn k_c19_invert_row0_f32() { invert_entries::<0, 3>() }
+    #[kani::proof] #[kani::unwind(4)] fn k_c19_invert_row1_f32() { invert_entries::<1, 3>() }
+    #[kani::proof] #[kani::unwind(4)] fn k_c19_invert_row2_f32() { invert_entries::<2, 3>() }
+    #[kani::proof] #[kani::unwind(4)] fn k_c19_invert_one0_f32() { invert_entries::<0, 1>() }
+    #[kani::proof] #[kani::unwind(4)] fn k_c19_invert_one1_f32() { invert_entries::<1, 1>() }
+    #[kani::proof] #[kani::unwind(4)] fn k_c19_invert_one2_f32() { invert_entries::<2, 1>() }
 
     #[kani::proof]
     fn k_c19_twin_must_fail() {
@@ -189,12 +205,17 @@ def plan(tier, seed):
         hs.append(mk("k_c19_mulvec_row%d_f32" % r, "mul_arr equals the exact product; mul_vec and the column of mul_mat agree with it bit for bit (lhs row %d symbolic)" % r,
                      "6 operands on the fixed-point grid k/4, |k|<=8 (every f32 operation exact, integer oracle); remaining lhs rows generic constants", ["non-trivial operands explored"]))
         hs.append(mk("k_c19_mulmat_col%d_f32" % r, "mul_mat equals the exact product (rhs column %d and one lhs row symbolic)" % r, "6 operands on the grid k/4; remaining entries generic constants", ["non-trivial operands explored"]))
-        hs.append(mk("k_c19_invert_row%d_f32" % r, "invert(A) equals adj(A)/det(A) entrywise within 1e-5 for |det| >= 0.5 (row %d symbolic)" % r,
-                     "3 entries on the grid k/8, |k|<=16; other rows generic constants; exact integer determinant/adjugate oracle", ["large determinant explored", "negative determinant explored"], to=1500))
+        hs.append(mk("k_c19_invert_one%d_f32" % r, "invert(A) equals adj(A)/det(A) entrywise within 1e-5 for |det| >= 0.5 (entry (%d,%d) symbolic)" % (r, r),
+                     "1 entry on the grid k/8, |k|<=16; other entries generic constants; exact integer determinant/adjugate oracle", ["large determinant explored"], to=900))
+        if tier == "thorough":
+            hs.append(mk("k_c19_invert_row%d_f32" % r, "invert(A) equals adj(A)/det(A) entrywise within 1e-5 for |det| >= 0.5 (row %d symbolic)" % r,
+                         "3 entries on the grid k/8, |k|<=16; other rows generic constants; exact integer determinant/adjugate oracle (time-capped: 9 divisions by a symbolic determinant)", ["large determinant explored", "negative determinant explored"], to=5400))
+        if tier == "thorough":
+            hs.append(mk("k_c19_mulvec_row%d_f64" % r, "f64 instantiation: mul_arr/mul_vec/transpose/identity/cross/dot equal the exact results (row %d symbolic)" % r, "6 operands on the grid k/4", [], to=3000))
     hs += [
         mk("k_c19_cross_dot_grid_f32", "cross, dot, component_mul equal the exact results", "6 operands on the grid k/4", ["non-trivial operands explored"]),
         mk("k_c19_scalar_div_grid_f32", "scalar_div is element-wise division within 1e-5 (RowVector and Matrix)", "4 operands on the grid k/4", ["non-trivial operands explored"]),
-        mk("k_c19_mulvec_grid_f64", "f64 instantiation: mul_arr/mul_vec/transpose/identity/cross/dot equal the exact results", "6 operands on the grid k/4, symbolic row index", []),
+        mk("k_c19_dot_transpose_f64", "f64 instantiation: dot exact, transpose swaps indices, identity() neutral (the full f64 product harnesses run in the thorough tier: ~9 min each)", "6 operands on the grid k/4", []),
         mk("k_c19_twin_must_fail", "vacuity twin", "", [], expect_fail="vacuity twin"),
     ]
     p.harnesses = hs
